@@ -22,7 +22,11 @@
 # define BP_SCALAR_FRAME
 #endif
 #define BP_GEJ_EQ
-#define BP_MEMSET
+#ifdef VERIFY_B8
+# define BP_MEMSET            /* real scratch allocator; only its symbolic-length memset is a contract */
+#else
+# define BP_SCRATCH_ALLOC     /* fresh-object abstraction of the allocator */
+#endif
 #define BP_PUBKEY_PARSE
 #include "assumed_bppp.h"
 #include "hash_log.h"
@@ -42,36 +46,43 @@ int g_mm_n; size_t g_mm_cnt0, g_mm_cnt1; int g_mm_hasg0, g_mm_hasg1, g_mm_ok0, g
 #include "src/ecmult_impl.h"
 #undef secp256k1_ecmult_multi_var
 size_t nondet_mm_idx(void); _Bool nondet_mm_ok(void);
-/* the two callbacks the verifier passes (defined later in the TU).  The model dispatches on them by name:
- * a call through the pointer makes goto-instrument consider every function of that type in the
- * library, and its loop-contract pass (which inlines the whole call tree) then runs out of memory. */
-static int ec_mult_verify_cb1(secp256k1_scalar *sc, secp256k1_ge *pt, size_t idx, void *cbdata);
-static int ec_mult_verify_cb2(secp256k1_scalar *sc, secp256k1_ge *pt, size_t idx, void *cbdata);
+/* The two callbacks the verifier passes, and the data they get (types defined later in the TU, so the
+ * model sits after the library include, see below).  CALLBACK CONTRACTS: the model asserts at each
+ * multi-exponentiation call that the callback data satisfies CB1_PRE / CB2_PRE for the point count n;
+ * C19.verify_cb proves on the real callbacks that under these preconditions every index idx < n is
+ * safe.  (Calling the callbacks from the model instead made goto-instrument's loop-contract pass,
+ * which inlines the whole call tree of the function, run out of memory.) */
+#define CB1_PRE(d, n) ((n) % 2 == 1 && __CPROVER_r_ok((d)->commit, sizeof(secp256k1_ge)) && \
+    ((n) == 1 || (__CPROVER_r_ok((d)->gammas, ((n) - 1) / 2 * sizeof(secp256k1_scalar)) && __CPROVER_r_ok((d)->proof, ((n) - 1) / 2 * 65))))
+#define CB2_PRE(d, n) ((d)->g_vec_len <= (n) && __CPROVER_r_ok((d)->g_vec, (n) * sizeof(secp256k1_ge)) && \
+    ((d)->g_vec_len == 0 || __CPROVER_r_ok((d)->s_g, (d)->g_vec_len * sizeof(secp256k1_scalar))) && \
+    ((d)->g_vec_len == (n) || __CPROVER_r_ok((d)->s_h, ((n) - (d)->g_vec_len) * sizeof(secp256k1_scalar))))
+static int secp256k1_ecmult_multi_var(const secp256k1_callback* error_callback, secp256k1_scratch *scratch, secp256k1_gej *r, const secp256k1_scalar *inp_g_sc, secp256k1_ecmult_multi_callback cb, void *cbdata, size_t n);
+#include "src/secp256k1.c"
+#include "post.h"
+
+/* ---- model of secp256k1_ecmult_multi_var (see head of file) ---- */
 static int secp256k1_ecmult_multi_var(const secp256k1_callback* error_callback, secp256k1_scratch *scratch, secp256k1_gej *r, const secp256k1_scalar *inp_g_sc, secp256k1_ecmult_multi_callback cb, void *cbdata, size_t n) {
-    secp256k1_scalar sc; secp256k1_ge pt; secp256k1_gej res; size_t idx = nondet_mm_idx(); int ok = 1;
+    secp256k1_gej res; int ok;
     (void)error_callback; (void)scratch;
-    if (n > 0) {
-        __CPROVER_assume(idx < n);                       /* model: callback indices are below n */
-        if (cb == ec_mult_verify_cb1) ok = ec_mult_verify_cb1(&sc, &pt, idx, cbdata);
-        else if (cb == ec_mult_verify_cb2) ok = ec_mult_verify_cb2(&sc, &pt, idx, cbdata);
-        else __CPROVER_assert(0, "C19 verify: multi-exponentiation is given one of the two verifier callbacks");
-#ifdef VERIFY_B8
-        if (ok) __CPROVER_assert(scalar_ok(&sc), "C19 verify (<=8): multi-exponentiation callback yields a scalar below n");
-#endif
-    }
+    if (cb == ec_mult_verify_cb1) {
+        const ec_mult_verify_cb_data1 *d = (const ec_mult_verify_cb_data1 *)cbdata;
+        __CPROVER_assert(CB1_PRE(d, n), "C19 verify: first multi-exponentiation gets commit, gammas[(n-1)/2] and proof[65 (n-1)/2] readable (callback contract)");
+    } else if (cb == ec_mult_verify_cb2) {
+        const ec_mult_verify_cb_data2 *d = (const ec_mult_verify_cb_data2 *)cbdata;
+        __CPROVER_assert(CB2_PRE(d, n), "C19 verify: second multi-exponentiation gets s_g[g_len], s_h[n - g_len] and n generators readable (callback contract)");
+    } else __CPROVER_assert(0, "C19 verify: multi-exponentiation is given one of the two verifier callbacks");
 #ifdef VERIFY_B8
     if (inp_g_sc != NULL) __CPROVER_assert(scalar_ok(inp_g_sc), "C19 verify (<=8): generator scalar handed to the multi-exponentiation is below n");
 #endif
     __CPROVER_assume(gej_ok(&res));                      /* model: result in representation range */
     *r = res;
-    ok = ok && nondet_mm_ok();
+    ok = nondet_mm_ok();                                 /* model: fails when a callback fails (invalid point) or scratch space runs out */
     if (g_mm_n == 0) { g_mm_cnt0 = n; g_mm_hasg0 = (inp_g_sc != NULL); g_mm_ok0 = ok; }
     if (g_mm_n == 1) { g_mm_cnt1 = n; g_mm_hasg1 = (inp_g_sc != NULL); g_mm_ok1 = ok; }
     g_mm_n++;
     return ok;
 }
-#include "src/secp256k1.c"
-#include "post.h"
 
 #ifdef VERIFY_B8
 # define LMAX ((size_t)8)
@@ -79,7 +90,11 @@ static int secp256k1_ecmult_multi_var(const secp256k1_callback* error_callback, 
 # define LMAX ((size_t)1 << 16)
 #endif
 #define PMAX ((size_t)(65 * 63 + 64 + 40))
-#define MAXS ((size_t)1 << 26)
+#ifdef VERIFY_B8
+# define MAXS ((size_t)1 << 12)
+#else
+# define MAXS ((size_t)1 << 26)
+#endif
 
 static int spec_log2(size_t x) { int b, r = 0; for (b = 0; b < 64; b++) if ((x >> b) != 0) r = b; return r; }
 static int spec_pow2(size_t x) { int b, c = 0; for (b = 0; b < 64; b++) c += (int)((x >> b) & 1); return c == 1; }
@@ -98,7 +113,12 @@ void h_verify_gate(void) {
     __CPROVER_assume(scalar_ok(&rho) && ge_ok(&commit) && tr.bytes <= ((uint64_t)1 << 40));
     __CPROVER_assume(we < 64 && wk < 65);
     memcpy(scr.magic, "scratch", 8); scr.max_size = max_size; scr.alloc_size = alloc0;
-    scr.data = malloc(max_size ? max_size : 1); __CPROVER_assume(scr.data != NULL); data0 = scr.data;
+#ifdef VERIFY_B8
+    scr.data = malloc(max_size ? max_size : 1); g_ms_idx = 0;
+#else
+    scr.data = malloc(1);                     /* the data block itself is abstracted, see BP_SCRATCH_ALLOC */
+#endif
+    __CPROVER_assume(scr.data != NULL); data0 = scr.data;
     INPUT_BUF(pf, proof, proof_len, 8);
     gv.n = gn; gv.gens = malloc(gn * sizeof(secp256k1_ge)); __CPROVER_assume(gv.gens != NULL);
     c_vec = malloc(c_len * sizeof(secp256k1_scalar)); __CPROVER_assume(c_vec != NULL);
@@ -107,7 +127,7 @@ void h_verify_gate(void) {
 #endif
     bytes0 = tr.bytes;
     HASHLOG_RESET(); g_we = (int)we; g_wpos = bytes0 + 65 * we + wk;
-    g_mm_n = 0; g_geq_n = 0; g_geq_v = 0; g_pp_n = 0; g_pp_k = 0; g_ms_idx = 0;
+    g_mm_n = 0; g_geq_n = 0; g_geq_v = 0; g_pp_n = 0; g_pp_k = 0;
 
     ret = secp256k1_bppp_rangeproof_norm_product_verify(&ctx, &scr, proof, proof_len, &tr, &rho, &gv, g_len, c_vec, c_len, &commit);
     WITNESS_BUF(pf, proof, proof_len, 8);
@@ -152,4 +172,34 @@ void h_verify_gate(void) {
     if (gates && n_big) REACH("n not below the group order rejected");
     if (g_len != 0 && c_len != 0 && gn == g_len + c_len && spec_pow2(g_len) && spec_pow2(c_len) && proof_len > 65 * (size_t)rounds + 64) REACH("trailing proof bytes rejected");
     if (ret == 1 && g_len == 1 && c_len == 1) REACH("accepts with zero rounds");
+}
+
+/* callback contracts: under CB1_PRE / CB2_PRE every index below n is safe (real callbacks; the
+ * compressed-point decoder inside parse_one_of_points is an oracle) */
+void h_verify_cb(void) {
+    INPUT(size_t, rounds); INPUT(size_t, idx); INPUT(size_t, glen); INPUT(size_t, hlen); INPUT(_Bool, second); INPUT(secp256k1_ge, commit);
+    secp256k1_scalar sc; secp256k1_ge pt; int ret;
+    __CPROVER_assume(rounds <= 63 && glen <= LMAX && hlen <= LMAX);
+    g_pp_n = 0; g_pp_k = 0;
+    if (!second) {
+        ec_mult_verify_cb_data1 d; size_t n = 2 * rounds + 1;
+        d.commit = &commit;
+        d.gammas = malloc(rounds * sizeof(secp256k1_scalar)); d.proof = malloc(rounds * 65);   /* exactly what CB1_PRE promises */
+        __CPROVER_assume(d.gammas != NULL && d.proof != NULL && idx < n);
+        __CPROVER_assert(CB1_PRE(&d, n), "C19 verify_cb: harness data satisfies CB1_PRE");
+        ret = ec_mult_verify_cb1(&sc, &pt, idx, &d);
+        __CPROVER_assert(ret == 0 || ret == 1, "C19 verify_cb: callback 1 returns 0 or 1");
+        if (ret && idx == 2 * rounds && rounds == 63) REACH("callback 1 at the last index of 63 rounds");
+        if (ret && idx == 0) REACH("callback 1 yields the commitment");
+    } else {
+        ec_mult_verify_cb_data2 d; size_t n = glen + hlen;
+        d.g_vec_len = glen;
+        d.s_g = malloc(glen * sizeof(secp256k1_scalar)); d.s_h = malloc(hlen * sizeof(secp256k1_scalar)); d.g_vec = malloc(n * sizeof(secp256k1_ge));
+        __CPROVER_assume(d.s_g != NULL && d.s_h != NULL && d.g_vec != NULL && idx < n);
+        __CPROVER_assert(CB2_PRE(&d, n), "C19 verify_cb: harness data satisfies CB2_PRE");
+        ret = ec_mult_verify_cb2(&sc, &pt, idx, &d);
+        __CPROVER_assert(ret == 1, "C19 verify_cb: callback 2 returns 1");
+        if (idx == n - 1 && hlen > 1) REACH("callback 2 at the last h index");
+        if (idx == glen - 1 && glen > 1) REACH("callback 2 at the last g index");
+    }
 }
